@@ -28,11 +28,11 @@ def items(ctx):
             if len(a) == 0 and len(b) == 0:
                 continue
             for sc in scorings:
-                if q and rng.random() > 0.35:
+                if q and rng.random() > 0.7:
                     continue
                 out.append({"s1": a, "s2": b, "A": A, "scoring": sc, "aslist": rng.random() < 0.3})
     A = 3
-    for _ in range(300 if q else 6000):
+    for _ in range(1000 if q else 6000):
         a = [rng.randrange(A) for _ in range(rng.randint(0, 6))]
         b = [rng.randrange(A) for _ in range(rng.randint(0, 6))]
         if not a and not b:
